@@ -343,9 +343,17 @@ class C07(Prop):
         obj = V.build(fmt, spec)
         return to_doc(fmt, obj.dumps())
 
+    PRELOAD_OK = ("images", "rpms", "modules", "extra_files", "discinfo")     # a second load into the same object is meaningful there
+
     def cases(self, rng, tier, budget):
         quota = [25]
         for c in self._cases(rng, tier, budget):
+            # hidden per-object state (memoised validation, flags set by an earlier load): a third of the cases load the VALID base
+            # document into the object first and then the case's document into the SAME object (composeinfo/treeinfo refuse a second
+            # load anyway: duplicate variant ids)
+            a = c["args"]
+            if a["fmt"] in self.PRELOAD_OK and (a["expect"] == "reject" or (not a["mods"] and a["fmt"] != "images")) and rng.random() < 0.35:
+                a["preload"] = "valid-document-first"
             # the known finding F15 is met a bounded number of times per run (checklib stops consuming after 50 failures, known or not)
             if self.trailing_nl(c):
                 quota[0] -= 1
@@ -434,6 +442,10 @@ class C07(Prop):
             model_doc = [l.strip() for l in io.StringIO(text).readlines()]
         self._cache[checklib.key_of(case)] = model_doc
         obj = V.new(fmt)
+        if a.get("preload"):
+            pre = V.outcome(obj.loads, to_text(fmt, a["doc"]))
+            if "err" in pre:
+                return {"loads": "MOD-NA"}
         r = V.outcome(obj.loads, text)
         if "err" in r:
             return {"loads": r["err"]}
@@ -483,10 +495,10 @@ class C07(Prop):
         if lo == "ok":
             if real_out["violations"]:
                 only_nl = not real_out["violations_lenient"]
-                return {"observed": {"loads": "ok", "violations": real_out["violations"][:3], "only_trailing_newline": only_nl, "mods": a["mods"]},
+                return {"observed": {"loads": "ok", "violations": real_out["violations"][:3], "only_trailing_newline": only_nl, "mods": a["mods"], "preload": a.get("preload")},
                         "required": "everything obtained from a successful load satisfies the catalogue", "kind": "loaded-invalid"}
             if a["expect"] == "reject":
-                return {"observed": {"loads": "ok", "only_trailing_newline": self.trailing_nl(case), "mods": a["mods"], "tag": a["tag"]},
+                return {"observed": {"loads": "ok", "only_trailing_newline": self.trailing_nl(case), "mods": a["mods"], "tag": a["tag"], "preload": a.get("preload")},
                         "required": "load/loads raises: " + a["tag"], "kind": "accepted-invalid"}
             return None
         if a["expect"] == "accept":
@@ -499,6 +511,8 @@ class C07(Prop):
     def stats(self, case, real_out, dist):
         a = case["args"]
         k = "%s/%s/%s" % (a["fmt"], a["tag"].split(":")[0], "ok" if real_out["loads"] == "ok" else ("err" if real_out["loads"] != "MOD-NA" else "n/a"))
+        if a.get("preload"):
+            dist["preloaded"] = dist.get("preloaded", 0) + 1
         dist[k] = dist.get(k, 0) + 1
         if real_out["loads"] not in ("ok", "MOD-NA"):
             d = dist.setdefault("exception_classes", {})
